@@ -19,8 +19,10 @@ def spec_mass(text):
     for a, h in zip(mol.atoms, eh):
         m += pysmiles.PTE[a['element']]['AtomicMass']
         # CGsmiles completes the valence of every atom, bracket atoms included (C09): the hydrogen count written in
-        # a bracket atom is not taken literally
-        m += h[0] * pysmiles.PTE['H']['AtomicMass']
+        # a bracket atom is not taken literally - except on an aromatic atom ([nH]), where the written hydrogen decides
+        # which Kekule form exists and valence arithmetic alone cannot know it
+        nh = a['hcount'] if (a.get('aromatic') and a.get('bracket') and a.get('hcount')) else h[0]
+        m += nh * pysmiles.PTE['H']['AtomicMass']
     return m
 
 
